@@ -640,7 +640,26 @@ func (x *Exec) linkSubArray(st *State, p *Pointer, ref *Term, at *types.Array) {
 	k, ks := x.elemKey(v.Tm.S.Rng, at.Elem())
 	m := st.hget(k, ks)
 	st.heap[k] = x.vc.define("h", Store(m, ref, v.Tm))
-	x.note("array field sliced via derived reference (read-only view): " + p.OwnerKey + "." + strings.Join(p.Path, "."))
+	if x.subRefs == nil {
+		x.subRefs = map[*Term]subRefInfo{}
+	}
+	x.subRefs[ref] = subRefInfo{p, at}
+}
+
+type subRefInfo struct {
+	p  *Pointer
+	at *types.Array
+}
+
+// syncSubRef writes the contents of a derived array reference back into the struct field it views
+// (called after every write to the element map at that reference).
+func (x *Exec) syncSubRef(st *State, ref *Term, key string, ks *Sort) {
+	info, ok := x.subRefs[ref]
+	if !ok {
+		return
+	}
+	cur := Select(st.hget(key, ks), ref)
+	x.store(st, info.p, info.at, &Value{T: info.at, Tm: x.vc.define("subarr", cur)})
 }
 
 // ---------- assignment ----------
